@@ -356,7 +356,7 @@ def check(case, res):
     if res.get("st") != "done":
         return vs, True
     m = case.meta
-    if m.get("kind") in ("decl", "forall"):
+    if m.get("kind") in ("decl", "forall", "vary"):
         return check_extra(case, res, vs)
     st = res["steps"]
     kind = m["kind"]
@@ -501,9 +501,54 @@ def forall_gen(tier):
     return gen
 
 
+# item / element expressions whose value changes from one evaluation to the next (tab(n, expr) evaluates expr per element; concat,
+# put and insert receive whatever an opaque function hands back): the container must refuse them or stay uniform
+VARY = {"7": "integer", "int()": "integer", '"s"': "string", "str()": "string", "2.5": "decimal", "num()": "decimal", "true": "boolean",
+        "null": None, "tab(1, 1)": "table", "tup(1, 2)": "tuple", 'raw("x")': "bytes"}
+
+
+def vary_gen(tier):
+    def gen():
+        n = 0
+        vals = list(VARY)
+        for seq in itertools.product(vals, repeat=3):
+            if tier != "thorough" and len(set(seq)) == 3 and n % 2:
+                n += 1
+                continue
+            fn = ("function vseq(s) return undefined is begin if s.count() == 1 then return %s; end if; if s.count() == 2 then return %s; end if; "
+                  "return %s; end;" % seq)
+            progs = {
+                "tab": 's = ""; t = tab(3, vseq(s.concat("x")));',
+                "concat": 's = ""; t = tab(1, vseq(s.concat("x"))); t.concat(vseq(s.concat("x"))); t.concat(vseq(s.concat("x")));',
+                "put": 's = ""; t = tab(3, vseq("x")); s = "x"; t.put(1, vseq(s.concat("x"))); t.put(2, vseq(s.concat("x")));',
+                "insert": 's = ""; t = tab(1, vseq(s.concat("x"))); t.insert(0, vseq(s.concat("x"))); t.insert(1, vseq(s.concat("x")));',
+            }
+            for pk, prog in progs.items():
+                ops = [op_ctx(), op_run(fn), op_run(prog), op_dump(0, "T"), op_run("forall e in t loop zz = typeof(e); end loop; print t.count();"), op_out(0)]
+                yield Case("y%d" % n, ops, {"kind": "vary", "seq": list(seq), "via": pk, "prog": prog})
+                n += 1
+    return gen
+
+
 def check_extra(case, res, vs):
     m = case.meta
     st = res["steps"]
+    if m["kind"] == "vary":
+        run, tv = st[2], st[3].get("vars", {}).get("T")
+        types = [VARY[x] for x in m["seq"]]
+        homogeneous = len(set(types)) == 1 and types[0] is not None
+        if run.get("r") not in ("ok", "rerr", "perr"):
+            return vs, True
+        if homogeneous and run.get("r") != "ok" and types[0] not in ("table", "tuple"):
+            vs.append(Violation("vary:homogeneous-rejected:%s" % m["via"], "%s with items %s was rejected: %s" % (m["prog"], m["seq"], run), case))
+        if tv and tv != "<none>":
+            try:
+                u = uniform(parse_symbol(tv)[2])
+            except Exception as e:
+                u = "unparsable dump %r" % tv
+            if u:
+                vs.append(Violation("vary:not-uniform:%s" % m["via"], "%s with items %s left t = %s: %s" % (m["prog"], m["seq"], tv[:200], u), case))
+        return vs, True
     if m["kind"] == "decl":
         d = tuple(m["d"])
         collided = False
@@ -582,6 +627,7 @@ def run(tier):
             total.parts.append({"part": "level3-frontier", "distinct_states_level2": len(frontier), "expanded": len(lim)})
             frontier = lim
     total.merge(explore("%s-%s-decls" % (PROP, tier), decl_gen(tier), check, chunk=50, deadline=deadline))
+    total.merge(explore("%s-%s-varying" % (PROP, tier), vary_gen(tier), check, chunk=100, deadline=deadline))
     from ..core import explore_gcc
     total.merge(explore_gcc("%s-%s-level1" % (PROP, tier), level_gen(first_frontier), check, chunk=150, deadline=deadline))
     total.merge(explore("%s-%s-forall" % (PROP, tier), forall_gen(tier), check, chunk=50, deadline=deadline))
